@@ -162,3 +162,40 @@ func quoteH(line string) string {
 	}
 	return "ok"
 }
+
+func init() { handlers["qword"] = qwordH }
+
+// case: style (s|d|b) \t string(hex): the source of the quoted word and the skeleton of the word the parser builds
+func qwordH(line string) string {
+	f := strings.Split(line, "\t")
+	s := unhex(f[1])
+	var q string
+	switch f[0] {
+	case "s":
+		q = "'" + s + "'"
+	case "d":
+		q = quoteDouble(s)
+	default:
+		var b strings.Builder
+		for _, r := range s {
+			b.WriteByte('\\')
+			b.WriteRune(r)
+		}
+		q = b.String()
+	}
+	cmds, _, err := parser.ParseCommands(nil, "t", "x "+q+"\n")
+	if err != nil {
+		return hx(q) + " error"
+	}
+	if len(cmds) == 1 {
+		if c, ok := cmds[0].(*ast.Cmd); ok {
+			if sc, ok := c.Expr.(*ast.SimpleCmd); ok && len(sc.Args) == 2 {
+				return hx(q) + " " + skWord(sc.Args[1])
+			}
+			if sc, ok := c.Expr.(*ast.SimpleCmd); ok && len(sc.Args) == 1 {
+				return hx(q) + " []"
+			}
+		}
+	}
+	return hx(q) + " shape:" + skCmds(cmds)
+}
